@@ -58,7 +58,7 @@ Chain(c, n) == /\ mode = "seed" /\ nmut = 0 /\ UNCHANGED <<mode, toks, nmut>> /\
 (* size-driven structures (texts up to 4 KiB built by the harness from a kind and a size): layered module imports (every  *)
 (* module of a layer imports both modules of the layer below), long && / || / NOT chains, bracket nesting, many rules,   *)
 (* many actions, a long string literal, a long arithmetic expression                                                     *)
-GenKinds == {"layers", "andchain", "orchain", "notchain", "parens", "manyrules", "manyacts", "longstring", "arith", "manyattrs", "querychain"}
+GenKinds == {"layers", "andchain", "orchain", "notchain", "parens", "manyrules", "manyacts", "longstring", "arith", "manyattrs", "querychain", "mixnest", "mixnestbad"}
 Gen(kind, n) == /\ mode = "empty" /\ UNCHANGED <<mode, toks, nmut>> /\ last' = [op |-> "text", toks |-> <<>>, sep |-> " ", chain |-> "", n |-> 0, gen |-> kind, size |-> n]
 
 Next == \/ \E k \in DOMAIN Alphabet : Append1(Alphabet[k])
